@@ -1449,6 +1449,10 @@ class MSgate(Channel):
     def __init__(self, r, phi=0.0, r_anc=10.0, eta_anc=1.0, avg=True):
         super().__init__([r, phi, r_anc, eta_anc, avg])
 
+    def merge(self, other):
+        # the target squeezing is not a multiplicative channel parameter
+        raise MergeFailure("Measurement-based squeezing gates cannot be merged.")
+
     def _apply(self, reg, backend, **kwargs):
         r, phi, r_anc, eta_anc, avg = par_evaluate(self.p)
         if avg:
@@ -2289,6 +2293,12 @@ class Fouriergate(Gate):
     def __init__(self):
         super().__init__([np.pi / 2])
 
+    def merge(self, other):
+        # the rotation angle is fixed: a Fourier gate can only cancel against its inverse
+        if super().merge(other) is None:
+            return None
+        raise MergeFailure("Fourier gates can only be merged with their inverse.")
+
     def _decompose(self, reg, **kwargs):
         # into a rotation
         theta = np.pi / 2
@@ -2329,6 +2339,10 @@ class Ggate(Gate):
     def __init__(self, S, d):
         super().__init__([S, d])
         self.ns = S.shape[-1] // 2
+
+    def merge(self, other):
+        # symplectic matrices compose by multiplication, not by adding the first parameters
+        raise MergeFailure("General Gaussian gates cannot be merged.")
 
     def _apply(self, reg, backend, **kwargs):
         S, d = par_evaluate(self.p)
